@@ -253,6 +253,7 @@ def run(ctx):
         # (a consumer that remembers modules it has already accepted must not let a damaged copy ride on that memory)
         dm_outcomes = {}
         n_dm = 0
+        died = [0]
         ddir = sc.sub("vmd")
         dm = vc.Daemon(asan.nano_vmd, ddir, {
             "ASAN_OPTIONS": "log_path=%s:detect_leaks=0:exitcode=97:abort_on_error=0" % os.path.join(ddir, "san"),
@@ -274,12 +275,24 @@ def run(ctx):
                             ctx.violation("vmd|intact-not-served|%s" % phase, "nano_vmd did not run the intact module %s correctly (%s): %s" % (
                                 os.path.basename(src), phase, r0.brief()), {"intact.nvm": data})
                             break
+                    if died[0] >= 3:
+                        break
                     for label, fb in faults:
                         cls = label.split("@")[0].split("+")[0].split(".")[0]
                         r = vc.exec_module(ddir, fb, timeout=60.0)
                         n_dm += 1
                         if r.timeout or r.exc:
-                            ctx.require(dm.alive(), "daemon died: %s" % dm.stderr_text(800))
+                            if not dm.alive():
+                                # the daemon went down while it was being given damaged copies: it executed (part of) one
+                                ctx.violation("vmd|%s|daemon-died" % phase.replace("-again", ""),
+                                              "nano_vmd died while damaged copies of %s were submitted (%s; last fault %s): %s" % (
+                                                  os.path.basename(src), phase, label, dm.stderr_text(1500)),
+                                              {"damaged.nvm": fb, "intact.nvm": data, "vmd.stderr": dm.stderr_text(6000)})
+                                ctx.require(dm.start(), "private nano_vmd did not restart")
+                                died[0] += 1
+                                if died[0] >= 3:
+                                    break
+                                continue
                             dm_outcomes[cls + ":inconclusive"] = dm_outcomes.get(cls + ":inconclusive", 0) + 1
                             continue
                         refused = (not r.out) and r.exit_code is None and any(b"nvalid" in e for e in r.errors)
@@ -293,7 +306,7 @@ def run(ctx):
                                           {"damaged.nvm": fb, "intact.nvm": data,
                                            "cmd.txt": "nano_vmd --foreground --no-timeout   # asan flavor, NLVERIF_VMD_DIR=<dir>\n"
                                                       "%ssubmit damaged.nvm (LOAD_EXEC)\n" % ("submit intact.nvm, then " if phase != "fresh" else "")})
-            ctx.require(dm.alive(), "daemon died during the fault sequence: %s" % dm.stderr_text(800))
+            ctx.require(dm.alive() or ctx.violations, "daemon died during the fault sequence: %s" % dm.stderr_text(800))
             sanlogs = [f for f in os.listdir(ddir) if f.startswith("san.")]
             for f in sanlogs[:3]:
                 txt = open(os.path.join(ddir, f), errors="replace").read()
@@ -301,7 +314,7 @@ def run(ctx):
                 ctx.violation("vmd-sanitizer|" + sig, "sanitizer report in nano_vmd while it was given damaged modules:\n" + txt[:3000], {"report.txt": txt})
         finally:
             dm.stop()
-        ctx.require(n_dm >= 100, "too few daemon cases (%d)" % n_dm)
+        ctx.require(n_dm >= 100 or ctx.violations, "too few daemon cases (%d)" % n_dm)
         ctx.require(sum(v for k, v in dm_outcomes.items() if k.endswith(":inconclusive")) <= n_dm // 20, "too many daemon sessions timed out: %s" % dm_outcomes)
         ctx.require(totals["ctrl"] >= 4 and totals["flips"] > 1000, "too few faults explored")
         ctx.require(n_cli >= 50, "too few CLI cases (%d)" % n_cli)
